@@ -13,6 +13,8 @@ import (
 	"os"
 	"os/exec"
 	"path/filepath"
+	"regexp"
+	"strconv"
 	"strings"
 	"sync"
 	"sync/atomic"
@@ -121,7 +123,13 @@ type vfSession struct {
 	childIn   io.WriteCloser
 	childDone chan struct{}
 	childErr  bytes.Buffer
-	childRaw  bytes.Buffer // everything the child printed on stdout
+	childRaw  *bytes.Buffer // everything the current child printed on stdout
+	bgChildren []*vfChildHandle // children that were detached (a transfer that went to the background): killed at close
+	curTap    atomic.Pointer[vfTapConn] // the client's most recent tunnel connection: the one the tap (faults, throttle, message numbering) follows
+	serverPortUnreachable atomic.Bool // see the client's connector
+	tapMu     sync.RWMutex // orders a tunnel dial against writes that are inside the tap
+	slowFirst *vfSlowFirstWriter // re-armed with slowFirst.done.Store(false): the next in-band write of the client is late again
+	bgDelay   time.Duration // an older tunnel connection (a background transfer) sleeps this long per read / write
 	exitCode  int
 	dials     atomic.Int32
 	c2sFail   func() bool // when set and true, the client's writes towards the server return an error
@@ -158,7 +166,8 @@ func vfNewSession(o vfSessOpts) *vfSession {
 		serverOut = fromRelay
 	}
 	if o.FirstWriteDelayMs > 0 {
-		serverIn = &vfSlowFirstWriter{inner: serverIn, delay: time.Duration(o.FirstWriteDelayMs) * time.Millisecond}
+		s.slowFirst = &vfSlowFirstWriter{inner: serverIn, delay: time.Duration(o.FirstWriteDelayMs) * time.Millisecond}
+		serverIn = s.slowFirst
 	}
 	s.filter = NewTrzszFilter(s.userIn, s.termOut, serverIn, serverOut, TrzszOptions{TerminalColumns: o.Columns,
 		DetectDragFile: o.Drag, DetectTraceLog: o.TraceLog, EnableZmodem: o.Zmodem, EnableOSC52: o.OSC52})
@@ -175,6 +184,15 @@ func vfNewSession(o vfSessOpts) *vfSession {
 		s.tunC2S = newVfLink("c2s", nil)
 		s.tunS2C = newVfLink("s2c", func([]byte) {})
 		s.filter.SetTunnelConnector(func(port int) net.Conn {
+			if s.serverPortUnreachable.Load() && len(s.relays) > 0 {
+				// the client sits behind the relay(s): it can reach the ports a relay announces, not the server's own port (a trigger
+				// that passed a busy relay unchanged carries the server's port)
+				if mm := vfTriggerPortRe.FindAllSubmatch(s.s2c.transcript(), -1); len(mm) > 0 {
+					if p, _ := strconv.Atoi(string(mm[len(mm)-1][1])); p == port {
+						return nil
+					}
+				}
+			}
 			conn := connector(port)
 			if conn == nil {
 				return nil
@@ -183,7 +201,10 @@ func vfNewSession(o vfSessOpts) *vfSession {
 			s.mu.Lock()
 			s.tunConn = conn
 			s.mu.Unlock()
+			s.tapMu.Lock() // a write of the previous connection that is inside the tap finishes first
+			s.curTap.Store(tc)
 			s.tunC2S.out = func(b []byte) { _, _ = conn.Write(b) }
+			s.tapMu.Unlock()
 			return tc
 		})
 		relayConnector := connector
@@ -212,8 +233,18 @@ func (c *vfTapConn) Write(p []byte) (int, error) {
 	if c.hello.CompareAndSwap(false, true) {
 		return c.Conn.Write(p)
 	}
-	c.s.tunC2S.feed(p)
-	return len(p), nil
+	c.s.tapMu.RLock()
+	if c.s.curTap.Load() == c {
+		c.s.tunC2S.feed(p)
+		c.s.tapMu.RUnlock()
+		return len(p), nil
+	}
+	c.s.tapMu.RUnlock()
+	// an older connection (a transfer that went to the background) while a newer one is being followed: straight through
+	if d := c.s.bgDelay; d > 0 {
+		time.Sleep(d)
+	}
+	return c.Conn.Write(p)
 }
 
 func (c *vfTapConn) Read(p []byte) (int, error) {
@@ -221,6 +252,12 @@ func (c *vfTapConn) Read(p []byte) (int, error) {
 		n, err := c.Conn.Read(p)
 		if n > 0 {
 			if c.rhello.CompareAndSwap(false, true) {
+				return n, err
+			}
+			if c.s.curTap.Load() != c {
+				if d := c.s.bgDelay; d > 0 {
+					time.Sleep(d)
+				}
 				return n, err
 			}
 			c.s.tunS2C.feed(p[:n])
@@ -339,7 +376,8 @@ func (s *vfSession) startServer(name string, args []string, dir string, extraEnv
 	s.child = cmd
 	s.childIn = stdin
 	s.childDone = done
-	s.childRaw.Reset()
+	raw := &bytes.Buffer{}
+	s.childRaw = raw
 	s.mu.Unlock()
 	go func() {
 		buf := make([]byte, 32*1024)
@@ -347,7 +385,7 @@ func (s *vfSession) startServer(name string, args []string, dir string, extraEnv
 			n, err := pr.Read(buf)
 			if n > 0 {
 				s.mu.Lock()
-				s.childRaw.Write(buf[:n])
+				raw.Write(buf[:n])
 				s.mu.Unlock()
 				s.s2c.feed(buf[:n])
 			}
@@ -365,12 +403,51 @@ func (s *vfSession) startServer(name string, args []string, dir string, extraEnv
 			}
 		}
 		s.mu.Lock()
-		s.exitCode = code
-		s.childIn = nil
+		if s.child == cmd { // a detached (background) child must not touch what belongs to its successor
+			s.exitCode = code
+			s.childIn = nil
+		}
 		s.mu.Unlock()
 		close(done)
 	}()
 	return nil
+}
+
+// vfChildHandle is a server child that was detached from the session: it keeps running (a transfer in the background) while the
+// session starts the next one.
+type vfChildHandle struct {
+	s    *vfSession
+	cmd  *exec.Cmd
+	done chan struct{}
+	raw  *bytes.Buffer
+}
+
+// detachServer lets the current child run on by itself; its output still reaches the terminal path, its result is read from the handle.
+func (s *vfSession) detachServer() *vfChildHandle {
+	s.mu.Lock()
+	defer s.mu.Unlock()
+	if s.child == nil {
+		return nil
+	}
+	h := &vfChildHandle{s: s, cmd: s.child, done: s.childDone, raw: s.childRaw}
+	s.bgChildren = append(s.bgChildren, h)
+	s.child, s.childDone, s.childIn = nil, nil, nil
+	return h
+}
+
+func (h *vfChildHandle) wait(limit time.Duration) bool {
+	select {
+	case <-h.done:
+		return true
+	case <-time.After(limit):
+		return false
+	}
+}
+
+func (h *vfChildHandle) output() []byte {
+	h.s.mu.Lock()
+	defer h.s.mu.Unlock()
+	return append([]byte(nil), h.raw.Bytes()...)
 }
 
 // waitServer waits until the child has exited and all its output has been read (read to EOF before judging).
@@ -438,6 +515,9 @@ func (s *vfSession) serverAlive() bool {
 func (s *vfSession) serverRaw() []byte {
 	s.mu.Lock()
 	defer s.mu.Unlock()
+	if s.childRaw == nil {
+		return nil
+	}
 	return append([]byte(nil), s.childRaw.Bytes()...)
 }
 
@@ -502,6 +582,17 @@ func (s *vfSession) shellOutput(b []byte) { s.s2c.feedRaw(b) }
 func (s *vfSession) close() {
 	s.killServer()
 	s.waitServer(5 * time.Second)
+	s.mu.Lock()
+	bg := s.bgChildren
+	s.bgChildren = nil
+	s.mu.Unlock()
+	for _, h := range bg {
+		if h.cmd.Process != nil {
+			_ = syscall.Kill(-h.cmd.Process.Pid, syscall.SIGKILL)
+			_ = h.cmd.Process.Kill()
+		}
+		h.wait(5 * time.Second)
+	}
 }
 
 // vfTransferGoroutines returns the stacks of goroutines that are still inside transfer code.
@@ -533,3 +624,5 @@ func vfSpellDest(dest string, spell int) string {
 	}
 	return dest
 }
+
+var vfTriggerPortRe = regexp.MustCompile(`::TRZSZ:TRANSFER:[SRD]:\d+\.\d+\.\d+:\d+:(\d+)`)
